@@ -1260,8 +1260,6 @@ impl Kademlia {
 
                                 match self.routing_table.entry(Key::from(peer)) {
                                     KBucketEntry::Occupied(entry) => Some(entry.clone()),
-                                    KBucketEntry::Vacant(entry) if !entry.address_store.is_empty() =>
-                                        Some(entry.clone()),
                                     _ => None,
                                 }
                             }).collect();
